@@ -591,7 +591,12 @@ def run_table(spec: Dict[str, Any]) -> Dict[str, Any]:
 
         if not (only is not None and only.get("type") not in (None, "doc")):
             meta_doc = json.loads(open(os.path.join(root, cur_meta)).read())
+            # quick: every operation on the paths reachability flows through on every table; the other paths of the (same) metadata
+            # format are covered completely on the tables with 1 and 2 snapshots and by a seeded third of them on the larger ones
+            thin = (not full_ops) and (spec["snaps"] > 2 or bool(spec.get("legacy_json")))
             for op in docdamage.json_ops(meta_doc, full_ops, rng):
+                if thin and not docdamage.is_focus(op["path"]) and rng.random() < 0.67:
+                    continue
                 doc_run(cur_meta, "json", "current-metadata", 0, op, f"{len(meta_doc.get('snapshots') or [])} snapshot(s)")
             doc_targets = list(targets)
             if not full_ops:
